@@ -34,7 +34,8 @@ RULE = ("one seeded PRNG draws script trees (random shapes, balanced, left/right
         "the Lean model; non-trivial = the implementation answered (did not refuse); distinct = distinct "
         "(stream, op line).  Oracles are evaluated on the real code alone.")
 TRUSTED = ["SHA-256 / tagged hash of the model is executable Lean validated against hashlib each run (hash.* streams)",
-           "that `Btc.EC.ops secp256k1` is a lawful group (hypothesis `Lawful`, property C01's business)",
+           "T1/T2 over the raw arithmetic rest on C01's `Lawful (opsSub K)` plus the named assumption that secp256k1 has "
+           "cofactor one (`Secp256k1CofactorOne`); T3 needs no group assumption (`LiftEven (EC.ops C)` is proved)",
            "taproot.serialize (command list -> tapscript bytes) is outside this property: leaves are compared as bytes",
            "collision resistance of the tagged hash: soundness is a REDUCTION to an explicit collision / tweak alias"]
 ASSUMPTIONS = ["libsecp256k1's xonly tweak functions are compared with the model, not verified"]
@@ -577,6 +578,25 @@ def _o_engine(w):
     return True, f"leaf version {version:#x}: {n} spends"
 
 
+def _o_zero_padded(w):
+    """a key altered by a leading zero byte must no longer verify (it does: integer comparison — known finding)"""
+    sec = bytes.fromhex(w["sec"])
+    tree = tree_of(w["tree"])
+    bad = []
+    for a in ("lib", "py"):
+        with arm(a):
+            q, _ = T.output_pubkey(sec, tree)
+            script, c = T.input_script_sig(sec, tree, 0)
+            s = T.serialize(list(script))
+            if T.check_output_pubkey(q, s, c) is not True:
+                return False, "the unaltered triple does not verify"
+            for alt in (b"\x00" + q, b"\x00\x00" + q):
+                r = _call(T.check_output_pubkey, alt, s, c)
+                if r == ("ok", True):
+                    bad.append(f"{a}:{len(alt)} octets")
+    return not bad, ("check_output_pubkey verifies a zero-padded output key: " + ", ".join(bad)) if bad else "rejected"
+
+
 def _guard(fn):
     """an oracle that raises has found something: the real code left through an exception it should not"""
     def g(w):
@@ -590,7 +610,8 @@ def _guard(fn):
 
 ORACLES = {"cb.proves": _o_proves, "cb.bitflip": _o_bitflip, "tweak.agree": _o_agree, "key.refused": _o_refuse,
            "tweak.range": _o_tweak_range, "backends.agree": _o_backends, "desc.tr": _o_desc, "bip341.vector": _o_bip341,
-           "bip341.keypath": _o_keypath, "engine.spend": _o_engine}
+           "bip341.keypath": _o_keypath, "engine.spend": _o_engine,
+           "key.zero_padded": _o_zero_padded}
 ORACLES = {k: _guard(v) for k, v in ORACLES.items()}
 
 
@@ -623,6 +644,7 @@ def run(ctx):
         if v["given"]["scriptTree"]:
             trees.append(("bip341", _vec_tree(v["given"]["scriptTree"])))
 
+    stk0 = tok_of([(0xC0, ["OP_1"])])
     L = {k: [] for k in ("tree", "leafhash", "outpub", "outpubroot", "outprv", "outprvroot", "iss", "check",
                           "check.mutated", "malformed")}
     flips = []
@@ -703,7 +725,17 @@ def run(ctx):
             L["outpubroot"].append(f"outpubroot@{a} {hx(mult(d)[0].to_bytes(32, 'big'))} {hx(common.rand_bytes(rng, rng.choice([0, 32, 32, 31, 33])))}")
             L["outprvroot"].append(f"outprvroot@{a} {d} {hx(common.rand_bytes(rng, rng.choice([0, 32, 32, 5])))}")
             ctx.check("tweak.agree", {"d": str(d), "tree": "-", "arm": a, "secs": [s.hex() for _, s in spellings(rng, d)]})
+    # the output key is compared as an integer: ONE keyed oracle, deterministic witness (known finding)
+    ctx.check("key.zero_padded", {"sec": "02" + f"{mult(1)[0]:064x}", "tree": stk0},
+              key="taproot.check_output_pubkey.zero_padded_key_accepted")
+    # an EMPTY internal key is Python-falsy: btclib falls back to the NUMS point exactly as for None
+    for kind, tree in trees[:6] + trees[-3:]:
+        tk = tok_of(tree)
+        for a in arms:
+            L["outpub"] += [f"outpub@{a} _ {tk}", f"outpub@{a} - {tk}"]
+            L["iss"] += [f"iss@{a} _ {tk} 0", f"iss@{a} - {tk} 0", f"iss@{a} _ {tk} {n_leaves(tree)}"]
     for a in arms:
+        L["outpub"].append(f"outpub@{a} _ -")
         L["outpub"].append(f"outpub@{a} - -")
         for d in (0, N, N + 1, -1):
             L["outprv"].append(f"outprv@{a} {d} -")
